@@ -114,7 +114,7 @@ def verify_case(ctx, config, r_, s_, msg, Q, cls, nontrivial=True):
               "r=%064x s=%064x msg=%s Q=%s model=%s lib=%d" % (r_, s_, msg.hex(), ser33(Q).hex(), exp, v.ret), config)
     if s_ > HALF_N and 0 < r_ < n:
         # high-S twin: rejected by verify, accepted after normalize iff the low-S form is valid
-        nz = ctx.call("sig_normalize", so.b(1), 1, config=config)
+        nz = ctx.call("sig_normalize", so.b(1), 1, *(("!alias",) if ctx.rng.random() < 0.3 else ()), config=config)     # "sigout can be identical to sigin"
         if nz is None: return
         ctx.check(nz.ret == 1, "sig_normalize:high_s_not_reported", "", config)
         v2 = ctx.call("ecdsa_verify", nz.b(1), msg, pk, config=config)
